@@ -44,6 +44,49 @@ META = {
          "a non-compact target range whose minimum is > 0, input in the top min/max fraction of the window"),
 }
 
+META_B = {
+ "C01": ("Pattern.raw_data emits 8 zero bytes for cells where Note.is_empty() (which ignores the module column)", "a pattern cell whose only non-zero field is the module number, saved inside a project"),
+ "C02": ("ArrayChunk.bytes caches the packed bytes and re-packs only when the `values` list object was replaced", "serialise or clone once, edit an array payload IN PLACE, serialise again"),
+ "C03": ("Sampler header field samples_num (0x1c) becomes the number of occupied slots instead of max index + 1", "a sampler whose sample slots are sparse (slot 0 empty or any gap)"),
+ "C04": ("ModuleReader.process_SEND runs the MetaModule user-controller step before the last CHNM/CHDT block is handed to the module", "a MetaModule with >= 1 user-defined controller whose last module-specific chunk is the options chunk (no label chunks)"),
+ "C05": ("ModuleReader.process_SMIP stores the program number into midi_out_bank", "a module whose MIDI-out program is set (SMIP != -1); drifts over two cycles"),
+ "C06": ("Pattern.raw_data is memoised; the cache is not dropped when a Note is edited in place", "load, serialise once, edit a note in place, save again"),
+ "C07": ("Project.connect hoists the source side and keeps a per-call `linked` set that is never updated on disconnect", "one request whose target list names the same module as ~b and later as b for a connected pair"),
+ "C08": ("SunVoxReader.process_end_of_file rebuilds out tables by 'assign if the slot exists, else append' instead of padding with -1", "a source whose explicit out-slots arrive out of order or with a gap (freed middle out-slot; fan-out in descending index order)"),
+ "C09": ("override_raise_controller_value_errors keeps the saved value in ONE module-level global (non-reentrant)", "after a nested override (loading a file with a MetaModule) strict mode is never restored: out-of-range assignments are accepted"),
+ "C10": ("DependentRange.parent caches the resolved range per instance; Module.set_raw never clears it", "a unit controller installed by set_raw (file load, clone) selecting a different range, then pattern_value"),
+ "C11": ("options_chunks starts from the loaded options record and ORs values in without clearing the option's own bits", "load a module, change an option to a value that clears a bit that was set, save, load"),
+ "C12": ("Visualization.level_mode setter clears the whole low byte (`& ~0xFF`) instead of bits 0-4", "a word whose orientation bit (5) or bits 6-7 are set, then level_mode assigned"),
+ "C13": ("hand-written Adsr class gains an alias `smooth = BaseAdsr.smooth_transitions`: the registered class has 16 controllers", "only the ADSR type; a genuine 15-value file loses its 15th value; rv writes 16 CVALs"),
+ "C14": ("attach_pattern's ownership guard becomes `isinstance(pattern, Pattern)`: PatternClone is no subclass", "a PatternClone already owned by another project is accepted (attach_pattern, +=, += [..])"),
+ "C15": ("the reader's list of user-defined controller names stops at user_defined_95 (1-based refactor slip)", "exactly 96 user-defined controllers and a stored value for #96 that differs from its target's current value"),
+ "C16": ("_StructReader.char stops at the first NUL (partition) instead of stripping trailing NULs; the 128-byte note map is read with it", "a note at map index >= 96 mapped to a non-zero sample while an earlier map entry is 0; names with an embedded NUL"),
+ "C17": ("MetaModule.load_project parses the embedded project through an lru_cache and hands out the cached Project without copying", "two MetaModules loaded from byte-identical embedded projects (same file twice, two clones), then the embedded project of one is mutated"),
+ "C18": ("read_sunvox_file opens paths through a new helper that sniffs the first 4 bytes and returns early (or raises) without closing the handle", "a path whose file does not start with SVOX/SSYN, or an I/O error at the very first read"),
+ "C19": ("set_via_fn rewritten with itertools product/starmap/zip: a StopIteration escaping the callable looks like normal exhaustion", "the supplied callable fails with StopIteration part-way: the partial array is installed and no exception reaches the caller"),
+ "C20": ("convert_value picks the curve segment with round(value / 128) instead of int(...)", "a non-default monotone curve in which a segment is followed by a steeper one"),
+}
+
+
+def main_b():
+    res = json.load(open("/verif/.work/seedb_results.json")) if os.path.exists("/verif/.work/seedb_results.json") else {}
+    for pid, (what, needs) in META_B.items():
+        wt = f"/tmp/mutb_{pid}"
+        d = f"/verif/seeded/{pid}b"
+        if not os.path.exists(os.path.join(wt, "patch.diff")) and not os.path.exists(d):
+            continue
+        os.makedirs(d, exist_ok=True)
+        if os.path.exists(wt):
+            shutil.copy(os.path.join(wt, "patch.diff"), os.path.join(d, "patch.diff"))
+            shutil.copy(os.path.join(wt, f"demo_{pid}.py"), os.path.join(d, f"demo_{pid}.py"))
+        meta = {"property": pid, "change": what, "needs_to_manifest": needs,
+                "origin": "independent sub-agent (second wave: told only the property text and the one-line idea of the first wave's change, to avoid duplicates; nothing from /verif)",
+                "confirmed": "patch applies to /repo HEAD; existing suite with the change: 170 passed, 2 skipped; demo exits 1 with the change and 0 without (tools/seedtest.sh)",
+                "checks_run": res.get(pid, {}).get("ran", ""), "caught_by": res.get(pid, {}).get("caught_by", []), "notes": res.get(pid, {}).get("notes", "")}
+        json.dump(meta, open(os.path.join(d, "meta.json"), "w"), indent=1)
+    print("recorded", sorted(os.listdir("/verif/seeded")))
+
+
 def main():
     res = json.load(open("/verif/.work/seed_results.json")) if os.path.exists("/verif/.work/seed_results.json") else {}
     for pid, (what, needs) in META.items():
@@ -65,4 +108,4 @@ def main():
     print("recorded", sorted(os.listdir("/verif/seeded")))
 
 if __name__ == "__main__":
-    main()
+    main_b() if "b" in sys.argv[1:] else main()
